@@ -387,3 +387,6 @@ def run(ctx: Check, tree: Tree) -> None:
     ctx.section(check_dalitz, ctx, tree)
     ctx.section(check_names_structural, ctx, tree)
     ctx.section(check_adapter_memo, ctx, tree)
+    from .c04 import check_topology_helpers
+
+    ctx.section(check_topology_helpers, ctx, tree)
